@@ -3,7 +3,8 @@
 
    Vocabulary (Model/Decompose.v, Proofs/DecomposeP.v):
      decompose env c nc ids maps : res (circ * nat)    the model of decompose_qpd_instructions (running offsets kept)
-     valid_grouping c ids   = accepted by the validation /\ no index twice /\ a 2q placeholder is a group of its own
+     valid_grouping c ids   = validate c ids = Ok tt, i.e. (c14_validate_characterised) groups of 1 or 2 placeholders with one
+                              basis, a 2q placeholder alone in its group, no index twice, every placeholder mentioned
      valid env c ids ms     = valid_grouping /\ |ms| = |ids| /\ every map id (a Python int: Z) in range 0 <= m < #maps for
                               every member of its group
      assign c ids (Some ms) = c with basis_id := the map id of the group containing the index (pointwise: c14_assign)
@@ -16,7 +17,7 @@ From CKT Require Import Common.Base Common.Circ Model.Decompose Proofs.Decompose
 (* the running-offset implementation equals the declarative splice, for ALL circuits, groupings and map choices *)
 Theorem c14_splice : forall env c nc ids ms,
   valid env c ids ms ->
-  decompose env c nc ids (Some ms) =
+  decompose env c nc ids (Some (map Some ms)) =
   Ok (measures_numbered nc (flat_map (splice env) (assign c ids (Some ms))),
       Nat.max 1 (count_markers (flat_map (splice env) (assign c ids (Some ms))))).
 Proof. exact decompose_splice. Qed.
@@ -38,24 +39,27 @@ Qed.
 (* the accepted requests are exactly the semantically well-formed ones (so `valid` hides nothing) *)
 Theorem c14_validate_characterised : forall c ids,
   validate c ids = Ok tt <->
-  (Forall (good_group c) ids /\ length (filter is_qpd c) = length (concat ids)).
-Proof. intros c ids; split; [apply validate_ok|intros [H1 H2]; now apply validate_complete]. Qed.
+  (Forall (good_group c) ids /\                                  (* 1 or 2 indices, all placeholders, one basis *)
+   length (filter is_qpd c) = length (concat ids) /\             (* as many indices as placeholders *)
+   NoDup (concat ids) /\                                         (* no index mentioned twice *)
+   (forall g, In g ids -> lone_2q c g)).                         (* a two-qubit placeholder is alone in its group *)
+Proof. intros c ids; split; [apply validate_ok_full|apply validate_complete]. Qed.
 
 Theorem c14_no_placeholder : forall env c nc ids ms out k,
-  valid env c ids ms -> decompose env c nc ids (Some ms) = Ok (out, k) ->
+  valid env c ids ms -> decompose env c nc ids (Some (map Some ms)) = Ok (out, k) ->
   forall y, In y out -> is_qpd y = false /\ is_marker y = false.
 Proof. exact no_placeholder. Qed.
 
 (* the instructions of the input that are neither placeholders nor markers are a subsequence of the output, in order *)
 Theorem c14_others_in_order : forall env c nc ids ms out k,
-  valid env c ids ms -> decompose env c nc ids (Some ms) = Ok (out, k) ->
+  valid env c ids ms -> decompose env c nc ids (Some (map Some ms)) = Ok (out, k) ->
   exists mask, length mask = length out /\ select mask out = filter is_other c.
 Proof. exact others_in_order. Qed.
 
 (* markers become measurements writing distinct consecutive bits nc, nc+1, ... of the new final register of size
    max 1 #markers; everything else in the spliced stream is left alone *)
 Theorem c14_measure_bits : forall env c nc ids ms out k,
-  valid env c ids ms -> decompose env c nc ids (Some ms) = Ok (out, k) ->
+  valid env c ids ms -> decompose env c nc ids (Some (map Some ms)) = Ok (out, k) ->
   let s := flat_map (splice env) (assign c ids (Some ms)) in
   k = Nat.max 1 (count_markers s) /\
   length out = length s /\
@@ -88,15 +92,41 @@ Theorem c14_refuse_count : forall env c nc ids maps,
   decompose env c nc ids maps = Refused.
 Proof. exact refuse_count. Qed.
 
-Theorem c14_refuse_maps_length : forall env c nc ids ms,
-  ids_in_range c ids -> length ms <> length ids ->
-  decompose env c nc ids (Some ms) = Refused.
+Theorem c14_refuse_repeated_index : forall env c nc ids maps,
+  ids_in_range c ids -> ~ NoDup (concat ids) -> decompose env c nc ids maps = Refused.
+Proof. exact refuse_repeated_index. Qed.
+
+Theorem c14_refuse_2q_in_pair : forall env c nc ids maps g p,
+  ids_in_range c ids -> In g ids -> In p g -> qpd2_at c p -> length g <> 1 ->
+  decompose env c nc ids maps = Refused.
+Proof. exact refuse_2q_in_pair. Qed.
+
+Theorem c14_refuse_maps_length : forall env c nc ids (mos : list (option Z)),
+  ids_in_range c ids -> length mos <> length ids ->
+  decompose env c nc ids (Some mos) = Refused.
 Proof. exact refuse_maps_length. Qed.
 
-Theorem c14_refuse_map_out_of_range : forall env c nc ids ms g m p,
-  ids_in_range c ids -> In (g, m) (combine ids ms) -> In p g -> in_range_b env c p m = false ->
-  decompose env c nc ids (Some ms) = Refused.
+Theorem c14_refuse_map_none : forall env c nc ids (mos : list (option Z)),
+  ids_in_range c ids -> In None mos -> decompose env c nc ids (Some mos) = Refused.
+Proof. exact refuse_map_none. Qed.
+
+Theorem c14_refuse_map_out_of_range : forall env c nc ids (mos : list (option Z)) g m p,
+  ids_in_range c ids -> In (g, Some m) (combine ids mos) -> In p g -> in_range_b env c p m = false ->
+  decompose env c nc ids (Some mos) = Refused.
 Proof. exact refuse_map_out_of_range. Qed.
+
+(* totality: every request whose indices lie inside the circuit is DECIDED — it is the splice of the circuit with the
+   assigned basis_ids when the grouping is accepted, the map choice complete and in range and every placeholder has a
+   basis_id, and a refusal otherwise; never a crash (wfb: class invariant of the gates, c14_setter_invariant) *)
+Theorem c14_decided : forall env c nc ids maps,
+  ids_in_range c ids -> forallb (wfb env) c = true ->
+  decompose env c nc ids maps =
+  if accepts env c ids maps then Ok (spec env nc (assigned c ids maps)) else Refused.
+Proof. exact decompose_decided. Qed.
+
+Theorem c14_never_crashes : forall env c nc ids maps,
+  ids_in_range c ids -> forallb (wfb env) c = true -> decompose env c nc ids maps <> Crashed.
+Proof. exact decompose_never_crashes. Qed.
 
 (* map_ids omitted (wfb: the class invariant "a set basis_id is in range"): the result is the splice with the
    basis_ids already on the gates when every placeholder has one, a refusal otherwise — never a crash *)
@@ -141,7 +171,7 @@ Example c14_ex_valid : valid exEnv exC exIds exMs.
 Proof. apply validb_sound. vm_compute. reflexivity. Qed.
 
 Example c14_ex_result :
-  decompose exEnv exC 1 exIds (Some exMs) =
+  decompose exEnv exC 1 exIds (Some (map Some exMs)) =
   Ok ([ mkI (Gate 0) [0] [];
         mkI Measure [2] [1]; mkI (Gate 3) [2] [];          (* pair, map 3, half 1 on qubit 2 *)
         mkI (Gate 1) [1] []; mkI Measure [1] [2];          (* 2q, map 1: half 0 on qubit 1, half 1 (empty) on qubit 0 *)
@@ -153,13 +183,13 @@ Example c14_ex_result :
 Proof. vm_compute. reflexivity. Qed.
 
 Example c14_ex_spec_agrees :
-  decompose exEnv exC 1 exIds (Some exMs) = Ok (spec exEnv 1 (assign exC exIds (Some exMs))).
+  decompose exEnv exC 1 exIds (Some (map Some exMs)) = Ok (spec exEnv 1 (assign exC exIds (Some exMs))).
 Proof. vm_compute. reflexivity. Qed.
 
 (* zero markers: the register still has one bit *)
 Example c14_ex_min_register :
   valid exEnv [mkI (Qpd2 0 None None) [0; 1] []] [[0]] [2%Z] /\
-  decompose exEnv [mkI (Qpd2 0 None None) [0; 1] []] 0 [[0]] (Some [2%Z]) = Ok ([], 1).
+  decompose exEnv [mkI (Qpd2 0 None None) [0; 1] []] 0 [[0]] (Some [Some 2%Z]) = Ok ([], 1).
 Proof. split; [apply validb_sound|]; vm_compute; reflexivity. Qed.
 
 (* omitted map choice: refused while some basis_id is unset, decomposed once all are set *)
@@ -170,7 +200,7 @@ Proof. split; [apply groupingb_sound|split]; vm_compute; reflexivity. Qed.
 Example c14_ex_omitted_ok :
   let c := assign exC exIds (Some exMs) in
   valid_grouping c exIds /\ forallb (wfb exEnv) c = true /\ forallb has_bid c = true /\
-  decompose exEnv c 1 exIds None = decompose exEnv exC 1 exIds (Some exMs).
+  decompose exEnv c 1 exIds None = decompose exEnv exC 1 exIds (Some (map Some exMs)).
 Proof. split; [apply groupingb_sound|split; [|split]]; vm_compute; reflexivity. Qed.
 
 Example c14_ex_setter :
@@ -179,15 +209,20 @@ Proof. vm_compute. repeat split; reflexivity. Qed.
 
 (* the refusal classes are inhabited *)
 Example c14_ex_refusals :
-  decompose exEnv exC 1 [[4; 6; 1]; [2]] (Some [0; 1]%Z) = Refused /\        (* three elements *)
-  decompose exEnv exC 1 [[4]; [6; 1]; [2]; []] (Some [0; 3; 1; 0]%Z) = Refused /\ (* empty group *)
-  decompose exEnv exC 1 [[4]; [6; 3]; [2]] (Some exMs) = Refused /\           (* index 3 is an ordinary gate *)
-  decompose exEnv exC 1 [[4; 6]; [1]; [2]] (Some exMs) = Refused /\           (* bases 1 and 0 in one group *)
-  decompose exEnv exC 1 [[4]; [6; 1]] (Some [0; 3]%Z) = Refused /\           (* 3 of 4 placeholders mentioned *)
-  decompose exEnv exC 1 exIds (Some [0; 3]%Z) = Refused /\                   (* two map ids for three groups *)
-  decompose exEnv exC 1 exIds (Some [3; 3; 1]%Z) = Refused /\                (* basis 1 has three maps *)
-  decompose exEnv exC 1 exIds (Some [0; -1; 1]%Z) = Refused /\               (* a negative map id is out of range *)
-  decompose exEnv exC 1 [[4]; [6; 1]; [9]] (Some exMs) = Crashed.             (* index outside the circuit: IndexError *)
+  let S := fun l : list Z => Some (map Some l) in
+  decompose exEnv exC 1 [[4; 6; 1]; [2]] (S [0; 1]%Z) = Refused /\           (* three elements *)
+  decompose exEnv exC 1 [[4]; [6; 1]; [2]; []] (S [0; 3; 1; 0]%Z) = Refused /\ (* empty group *)
+  decompose exEnv exC 1 [[4]; [6; 3]; [2]] (S exMs) = Refused /\             (* index 3 is an ordinary gate *)
+  decompose exEnv exC 1 [[4; 6]; [1]; [2]] (S exMs) = Refused /\             (* bases 1 and 0 in one group *)
+  decompose exEnv exC 1 [[4]; [6; 1]] (S [0; 3]%Z) = Refused /\              (* 3 of 4 placeholders mentioned *)
+  decompose exEnv exC 1 [[4]; [6; 6]; [2]] (S exMs) = Refused /\             (* index 6 twice, index 1 never: the count matches *)
+  decompose exEnv exC 1 [[4]; [6; 1]; [2]; [2]] (S [0; 3; 1; 1]%Z) = Refused /\ (* index 2 in two groups *)
+  decompose exEnv exC 1 [[4]; [6]; [2; 1]] (S exMs) = Refused /\             (* a 2q placeholder paired with a half of the same basis *)
+  decompose exEnv exC 1 exIds (S [0; 3]%Z) = Refused /\                      (* two map ids for three groups *)
+  decompose exEnv exC 1 exIds (S [3; 3; 1]%Z) = Refused /\                   (* basis 1 has three maps *)
+  decompose exEnv exC 1 exIds (S [0; -1; 1]%Z) = Refused /\                  (* a negative map id is out of range *)
+  decompose exEnv exC 1 exIds (Some [Some 0; None; Some 1]%Z) = Refused /\   (* a None entry *)
+  decompose exEnv exC 1 [[4]; [6; 1]; [9]] (S exMs) = Crashed.                (* index outside the circuit: IndexError *)
 Proof. vm_compute. repeat split; reflexivity. Qed.
 
 Print Assumptions c14_splice.
@@ -200,7 +235,12 @@ Print Assumptions c14_refuse_length.
 Print Assumptions c14_refuse_non_placeholder.
 Print Assumptions c14_refuse_differing_bases.
 Print Assumptions c14_refuse_count.
+Print Assumptions c14_refuse_repeated_index.
+Print Assumptions c14_refuse_2q_in_pair.
 Print Assumptions c14_refuse_maps_length.
+Print Assumptions c14_refuse_map_none.
+Print Assumptions c14_decided.
+Print Assumptions c14_never_crashes.
 Print Assumptions c14_refuse_map_out_of_range.
 Print Assumptions c14_omitted.
 Print Assumptions c14_omitted_never_crashes.
@@ -214,20 +254,23 @@ Open Scope string_scope.
 Definition sites_of (f : string) : nat :=
   match find (fun p => String.eqb (fst p) f) value_error_sites with Some p => snd p | None => 0 end.
 
-(* the validation raises in the order modelled by validate_group / validate: length, first index, member index,
-   bases, count; two ValueErrors in the public function (len(map_ids); since fix 417f876 the pre-validation of every
-   map id before any assignment); one in the basis_id setter (range);
-   the 2q indices are sorted; the offsets move by +1 (2q loop), +1 and -1 (1q loop); register size max(1, .);
-   and the second loop refuses an unset basis_id (the repaired behaviour the model follows) *)
+(* the validation raises in the order modelled by validate_group / validate: length, first index, member index, bases,
+   2q gate in a pair, repeated index, count (the last two before the count are the repair the model demands); two
+   ValueErrors in the public function (len(map_ids); the pre-validation of every map id — None or out of range — before
+   any assignment); one in the basis_id setter (range); the 2q indices are sorted; the offsets move by +1 (2q loop), +1
+   and -1 (1q loop); register size max(1, .); _decompose_qpd_instructions has one ValueError (unset basis_id) and it
+   precedes every modification of the circuit *)
 Theorem c14_facts :
   c14_validate_messages =
-    ["Each decomposition m"; "A circuit data index"; "A circuit data index"; "Gates within the sam"; "The total number of "] /\
-  sites_of "qpd.decompose:_validate_qpd_instructions" = 5 /\
+    ["Each decomposition m"; "A circuit data index"; "A circuit data index"; "Gates within the sam";
+     "A TwoQubitQPDGate mu"; "Each instruction ind"; "The total number of "] /\
+  sites_of "qpd.decompose:_validate_qpd_instructions" = 7 /\
   sites_of "qpd.decompose:decompose_qpd_instructions" = 2 /\
   sites_of "qpd.instructions.qpd_gate:BaseQPDGate.basis_id" = 1 /\
   c14_sorted_2q = true /\
   c14_offset_updates = ["=0"; "+=1"; "=0"; "+=1"; "-=1"] /\
   c14_min_register = 1 /\
-  c14_decompose_value_errors = 1.
+  c14_decompose_value_errors = 1 /\
+  c14_unset_check_first = true.
 Proof. repeat split; reflexivity. Qed.
 Print Assumptions c14_facts.
